@@ -106,8 +106,33 @@ fn run_fn(a: &Args) {
 }
 
 // ------------------------------------------------------------------------------------------------ win
+/// VERY LONG windows (lazy: only the first frames are pulled): n beyond 2^16, 2^31, 2^32, 2^40 — the phase step is
+/// 1/(n-1) whatever integer width n passes through on the way (oracle only)
+fn huge_windows(st: &mut Stream) {
+    for &n in &[(1usize << 16) + 1, (1usize << 31) + 1, (1usize << 32) + 9, (1usize << 33) + 1025, (1usize << 40) + 3] {
+        let case = format!("Window::<[f64; 1], Hann>::new({}): the first 16 frames", n);
+        mark(0, &case);
+        let r = guarded(|| { let w: Window<[f64; 1], Hann> = Window::new(n); let mut ph = w.phase.clone(); let vals: Vec<f64> = w.take(16).map(|f| f[0]).collect(); let phs: Vec<f64> = (0..16).map(|_| ph.next_phase()).collect(); (phs, vals) });
+        st.count("window_longer_than_2^16");
+        match r {
+            None => st.oracle_fail("Window panicked", &case, "frames", "panic"),
+            Some((phs, vals)) => {
+                let mut bad = None;
+                for i in 0..16 {
+                    let ideal = i as f64 / (n as f64 - 1.0);
+                    if (phs[i] - ideal).abs() > 64.0 * f64::EPSILON * ideal.max(f64::MIN_POSITIVE) + 1e-300 { bad = Some(format!("phase {}: {:e}, expected {}/({}-1) = {:e}", i, phs[i], i, n, ideal)); break; }
+                    let want = hann_formula(ideal);
+                    if (vals[i] - want).abs() > 1e-15 { bad = Some(format!("value {}: {:e}, expected {:e}", i, vals[i], want)); break; }
+                }
+                match bad { None => st.oracle_ok(32), Some(b) => st.oracle_fail("a very long window does not sample the phases i/(n-1)", &case, "", &b) }
+            }
+        }
+    }
+}
+
 fn run_win(a: &Args) {
     let mut st = Stream::new(&a.out, "win");
+    huge_windows(&mut st);
     let max_n = if a.thorough() { 2048 } else { 300 };
     let mut max_phase_dev = 0.0f64; let mut max_val_dev = 0.0f64; let mut max_last = 0.0f64;
     for kind in ["hann", "rect"] {
